@@ -332,7 +332,7 @@ def run(ctx):
     if ctx.prop == "C02" and not getattr(ctx, "_sharing", False):
         from .common import share
         share(ctx, "C14", ("R14.2",), "R02.8", "reset obligations shared with C14", 3)
-        share(ctx, "C12", ("R12.10",), "R02.8", "entry-point obligations shared with C12", 2)
+        share(ctx, "C12", ("R12.10", "R12.11"), "R02.8", "entry-point obligations shared with C12", 3)
     ctx.assume("the round-trip equation itself, interleavings of items and as<T>() numeric conversion are not decided")
 
 
